@@ -133,7 +133,7 @@ def term_of(c, p):
     rem = [int(x) for x in m.group(4).split()]
     res = dv.coq_list([ls_common.zpairs(p['results'].get(t, [])) for t in range(nthr)])
     return '(CC %s %s %d%%nat %s %s %s %s %s %s %s %s %d %d)' % (
-        dv.zlit(c['cap']), dv.zlit(c['i0']), c['budget'],
+        dv.zlit(c['cap']), dv.zlit(c['i0']), ls_common.fuel_of(c['budget'], p['status']),
         dv.coq_list([op_coq(o) for o in c['oprog']]),
         dv.coq_list([dv.coq_list([op_coq(o) for o in pr]) for pr in c['tprogs']]),
         dv.coq_list([str(x) for x in c['sched']]),
